@@ -1,5 +1,6 @@
 import Martian.Model.Har
 import Martian.Model.JsonString
+import Martian.Model.Query
 import Martian.Drv.C15
 /-! Driver for C16: `hreq`, `hres`, `jsonpd`, `jsoncontent` (see go/internal/c16). -/
 namespace Martian.Drv.C16
@@ -84,6 +85,10 @@ def step (s : St) (toks : List String) : St × String :=
       (s, (if j.encoding.isSome then "base64 " else "text ") ++ (if rt == "ok" then hex j.text else "?") ++ " rt=" ++ rt
             ++ " obj=" ++ hex (contentObj j))
     | _, _ => (s, "bad-op")
+  | ["query", x] =>
+    match unhex x with
+    | some raw => (s, "query " ++ showKVs (harQuery raw))
+    | none => (s, "bad-op")
   | ["jsonstr", "enc", x] =>
     match unhex x with
     | some b =>
